@@ -11,7 +11,7 @@ use utils::singleflight::{Group, SingleflightError};
 
 use crate::engine::{Case, Ctx};
 
-pub const RULE: &str = "scripts of events {Call(key in 3 keys, outcome Ok / Err / Panic, gate in 4 gates, yields before the call), Release(gate), Yield(n)} with 1-12 callers; every supplied task logs its start, waits for its gate and returns its outcome tagged with the caller id; remaining gates are released at the end. Mode A: current-thread runtime with a paused (virtual) clock and a generated plan of cooperative yields at three guarded points inside Group::work (after the call-map lookup, after the result future is created, before the owner removes the call) - deterministic, and a caller that would wait forever trips a 1-hour virtual timeout as soon as the runtime is idle. Mode B: the same scripts on a 2-4 worker multi-thread runtime (real parallelism; a hang there is inconclusive, a wrong outcome is a violation). Oracle over the event log (logical timestamps): tasks started = calls reporting ownership; an owner's own task started exactly once and a non-owner's never; an owner receives its own value / error / join error; every non-owner result names an owner of the same key whose call interval overlaps its own and whose outcome kind matches (value id, error payload, or panic notification); all callers return. non-trivial = script in which >= 2 waiters joined one flight and a later call on the same key started a new flight; distinct by fingerprint of the script";
+pub const RULE: &str = "scripts of events {Call(key in 3 keys, outcome Ok / Err / Panic, gate in 4 gates, yields before the call, optionally a second call by the same caller straight after the first returns), Release(gate), Yield(n)} with 1-12 callers; every supplied task logs its start, waits for its gate and returns its outcome tagged with the caller id; remaining gates are released at the end. Mode A: current-thread runtime with a paused (virtual) clock and a generated plan of cooperative yields at three guarded points inside Group::work (after the call-map lookup, after the result future is created, before the owner removes the call) - deterministic, and a caller that would wait forever trips a 1-hour virtual timeout as soon as the runtime is idle. Mode B: the same scripts on a 2-4 worker multi-thread runtime (real parallelism; a hang there is inconclusive, a wrong outcome is a violation). Oracle over the event log (logical timestamps): tasks started = calls reporting ownership; an owner's own task started exactly once and a non-owner's never; an owner receives its own value / error / join error; every non-owner result names an owner of the same key whose call interval overlaps its own and whose outcome kind matches (value id, error payload, or panic notification); the executions of two tasks of one key never overlap in time; all callers return. non-trivial = script in which >= 2 waiters joined one flight and a later call on the same key started a new flight; distinct by fingerprint of the script";
 
 pub const ASSUMPTIONS: &[&str] = &[
     "callers are not cancelled while waiting (the property does not cover dropped callers)",
@@ -20,7 +20,15 @@ pub const ASSUMPTIONS: &[&str] = &[
 
 #[derive(Clone, Debug, Serialize, Deserialize, PartialEq)]
 pub enum Ev {
-    Call { key: u8, outcome: u8, gate: u8, pre_yields: u8 },
+    Call {
+        key: u8,
+        outcome: u8,
+        gate: u8,
+        pre_yields: u8,
+        /// the same caller immediately calls again on the same key: (outcome, gate)
+        #[serde(default)]
+        again: Option<(u8, u8)>,
+    },
     Release(u8),
     Yield(u8),
 }
@@ -36,7 +44,8 @@ pub struct Script {
 
 fn ev_strategy() -> impl Strategy<Value = Ev> {
     prop_oneof![
-        6 => (0u8..3, prop_oneof![3 => Just(0u8), 2 => Just(1u8), 1 => Just(2u8)], 0u8..4, 0u8..3).prop_map(|(key, outcome, gate, pre_yields)| Ev::Call { key, outcome, gate, pre_yields }),
+        6 => (0u8..3, prop_oneof![3 => Just(0u8), 2 => Just(1u8), 1 => Just(2u8)], 0u8..4, 0u8..3, prop_oneof![3 => Just(None), 1 => (0u8..3, 0u8..4).prop_map(Some)])
+            .prop_map(|(key, outcome, gate, pre_yields, again)| Ev::Call { key, outcome, gate, pre_yields, again }),
         3 => (0u8..4).prop_map(Ev::Release),
         3 => (0u8..5).prop_map(Ev::Yield),
     ]
@@ -65,6 +74,8 @@ struct CallLog {
     issued: u64,
     returned: Option<u64>,
     task_starts: u32,
+    task_start: Option<u64>,
+    task_end: Option<u64>,
     result: Option<(Result<u64, Res>, bool)>,
 }
 
@@ -103,50 +114,58 @@ async fn run_script(script: &Script, virtual_clock: bool) -> Result<Vec<CallLog>
             Ev::Release(g) => {
                 let _ = gates[*g as usize % 4].send(true);
             },
-            Ev::Call { key, outcome, gate, pre_yields } => {
-                let id = {
+            Ev::Call { key, outcome, gate, pre_yields, again } => {
+                let mut calls: Vec<(usize, u8, tokio::sync::watch::Receiver<bool>)> = Vec::new();
+                for (outcome, gate) in std::iter::once((*outcome, *gate)).chain(again.iter().copied()) {
                     let mut c = shared.calls.lock().unwrap();
-                    c.push(CallLog { key: *key, outcome: *outcome, issued: 0, returned: None, task_starts: 0, result: None });
-                    c.len() - 1
-                };
+                    c.push(CallLog { key: *key, outcome, issued: 0, returned: None, task_starts: 0, task_start: None, task_end: None, result: None });
+                    calls.push((c.len() - 1, outcome, gates[gate as usize % 4].subscribe()));
+                }
                 let group = group.clone();
                 let shared2 = shared.clone();
-                let mut rx = gates[*gate as usize % 4].subscribe();
-                let (key, outcome, pre) = (*key, *outcome, *pre_yields);
+                let (key, pre) = (*key, *pre_yields);
                 handles.push(tokio::spawn(async move {
                     for _ in 0..pre {
                         tokio::task::yield_now().await;
                     }
-                    let shared3 = shared2.clone();
-                    let task = async move {
-                        shared3.calls.lock().unwrap()[id].task_starts += 1;
-                        shared3.tick();
-                        // wait for the gate
-                        while !*rx.borrow() {
-                            if rx.changed().await.is_err() {
-                                break;
+                    for (id, outcome, mut rx) in calls {
+                        let shared3 = shared2.clone();
+                        let task = async move {
+                            let t = shared3.tick();
+                            {
+                                let mut c = shared3.calls.lock().unwrap();
+                                c[id].task_starts += 1;
+                                c[id].task_start = Some(t);
                             }
-                        }
-                        match outcome % 3 {
-                            0 => Ok(id as u64),
-                            1 => Err(format!("E<{id}>")),
-                            _ => panic!("task {id} panics"),
-                        }
-                    };
-                    let t = shared2.tick();
-                    shared2.calls.lock().unwrap()[id].issued = t;
-                    let (res, owner) = group.work(&format!("key{key}"), task).await;
-                    let t = shared2.tick();
-                    let res = res.map_err(|e| match e {
-                        SingleflightError::InternalError(s) => Res::Internal(s),
-                        SingleflightError::WaiterInternalError(s) => Res::WaiterInternal(s),
-                        SingleflightError::JoinError(s) => Res::Join(s),
-                        SingleflightError::OwnerPanicked => Res::OwnerPanicked,
-                        other => Res::Other(format!("{other:?}")),
-                    });
-                    let mut c = shared2.calls.lock().unwrap();
-                    c[id].returned = Some(t);
-                    c[id].result = Some((res, owner));
+                            // wait for the gate
+                            while !*rx.borrow() {
+                                if rx.changed().await.is_err() {
+                                    break;
+                                }
+                            }
+                            let t = shared3.tick();
+                            shared3.calls.lock().unwrap()[id].task_end = Some(t);
+                            match outcome % 3 {
+                                0 => Ok(id as u64),
+                                1 => Err(format!("E<{id}>")),
+                                _ => panic!("task {id} panics"),
+                            }
+                        };
+                        let t = shared2.tick();
+                        shared2.calls.lock().unwrap()[id].issued = t;
+                        let (res, owner) = group.work(&format!("key{key}"), task).await;
+                        let t = shared2.tick();
+                        let res = res.map_err(|e| match e {
+                            SingleflightError::InternalError(s) => Res::Internal(s),
+                            SingleflightError::WaiterInternalError(s) => Res::WaiterInternal(s),
+                            SingleflightError::JoinError(s) => Res::Join(s),
+                            SingleflightError::OwnerPanicked => Res::OwnerPanicked,
+                            other => Res::Other(format!("{other:?}")),
+                        });
+                        let mut c = shared2.calls.lock().unwrap();
+                        c[id].returned = Some(t);
+                        c[id].result = Some((res, owner));
+                    }
                 }));
             },
         }
@@ -202,6 +221,19 @@ fn judge(log: &[CallLog]) -> Result<Verdict, String> {
     }
     if started as usize != owners {
         return Err(format!("[sig:c20-task-count] {started} tasks were started for {owners} owning calls"));
+    }
+    // one task per key at a time: a flight's call stays registered from before its task starts until after it
+    // ends, so every call made in between joins it - two executions for one key never overlap
+    let running: Vec<(usize, u8, u64, u64)> = log.iter().enumerate().filter_map(|(i, c)| c.task_start.map(|s| (i, c.key, s, c.task_end.unwrap_or(u64::MAX)))).collect();
+    for a in &running {
+        for b in &running {
+            if a.0 < b.0 && a.1 == b.1 && a.2 <= b.3 && b.2 <= a.3 {
+                return Err(format!(
+                    "[sig:c20-tasks-overlap] the tasks of callers {} and {} (same key {}) ran at the same time: [{}, {}] and [{}, {}] - a call made while a flight was in progress started its own task",
+                    a.0, b.0, a.1, a.2, a.3, b.2, b.3
+                ));
+            }
+        }
     }
     // every non-owner result names an overlapping owner of the same key with a matching outcome
     let mut waiters_of: std::collections::BTreeMap<usize, usize> = Default::default();
@@ -264,8 +296,11 @@ fn labels(info: &mut Case, script: &Script, v: &Verdict) {
         info.label("new-flight-after-finished-flight");
     }
     for e in &script.events {
-        if let Ev::Call { outcome, .. } = e {
+        if let Ev::Call { outcome, again, .. } = e {
             info.label(["call:ok", "call:err", "call:panic"][*outcome as usize % 3]);
+            if again.is_some() {
+                info.label("caller-calls-twice-back-to-back");
+            }
         }
     }
     info.note = Some(json!({"events": script.events.len(), "owners": v.owners, "max_waiters_in_a_flight": v.waiters_in_one_flight}));
@@ -310,6 +345,6 @@ fn mode_b(script: &Script, info: &mut Case) -> Result<(), String> {
 }
 
 pub fn run(ctx: &Ctx) {
-    ctx.explore("virtual-clock", ctx.tier.pick(20_000, 600_000), 16, script_strategy, mode_a);
-    ctx.explore("multi-thread", ctx.tier.pick(600, 20_000), 4, script_strategy, mode_b);
+    ctx.explore("virtual-clock", ctx.tier.pick(100_000, 2_000_000), 16, script_strategy, mode_a);
+    ctx.explore("multi-thread", ctx.tier.pick(3_000, 60_000), 4, script_strategy, mode_b);
 }
